@@ -422,8 +422,10 @@ let c_mchunks (r : tOASTChunk list res) : string =
   c_res (fun cs -> c_list (List.map (fun c -> c_chunk c.chunkID c.chunkSeq c.data) cs)) r
 
 (* infomask values: HEAP_HASVARWIDTH always; visible = XMIN_COMMITTED and (XMAX_INVALID or not XMAX_COMMITTED) *)
-let visible_masks = [| 0x0902; 0x0102; 0x0912; 0x0182 |]
-let dead_masks = [| 0x0502; 0x0002; 0x0a02; 0x0402; 0x0d02 land 0xf5ff |]   (* deleted / insert not committed / aborted *)
+(* 0x0300 = HEAP_XMIN_FROZEN (both xmin hint bits, as after VACUUM FREEZE): committed (seeded change C08-16);
+   0x0200 alone = HEAP_XMIN_INVALID: the inserter aborted *)
+let visible_masks = [| 0x0902; 0x0102; 0x0912; 0x0182; 0x0b02; 0x0302; 0x0b12 |]
+let dead_masks = [| 0x0502; 0x0002; 0x0a02; 0x0402; 0x0d02 land 0xf5ff; 0x0202; 0x0602; 0x0702 |]   (* deleted / insert not committed / aborted *)
 
 let mk_tuple r (visible : bool) (f : vl_form) (c : chunk) : tup =
   { tp_head = rbytes r 18; tp_natts = zi 3; tp_flags2 = zi 0;
@@ -473,8 +475,22 @@ let gen_relation r ~(values : (ZA.t * byte list) list) : byte list * chunk list 
       let f = if List.length c.ck_data <= 126 && rint r 3 = 0 then VShort else VLong in
       mk_tuple r vis f c) all in
   let blocks = paginate r tuples in
+  (* one page in four relations is filled to the last byte (pd_lower = pd_upper = 48): three values of two chunks each,
+     tuple images 3 x 2032 + 680 + 680 + 688 bytes under six line pointers (seeded change C08-18) *)
+  let full_rows =
+    if rint r 4 <> 0 || List.exists (fun (id, _) -> ZA.geq id (ZA.of_int 777000001) && ZA.leq id (ZA.of_int 777000003)) values then []
+    else shuffle r (List.concat (List.mapi (fun i tail ->
+        let id = zi (777000001 + i) in
+        [ { ck_id = id; ck_seq = zi 0; ck_data = rbytes r 1996 }; { ck_id = id; ck_seq = zi 1; ck_data = rbytes r tail } ]) [ 644; 644; 652 ])) in
+  let front = rbool r in
+  let blocks = if full_rows = [] then blocks else
+      let pg = mk_page r (List.map (fun c -> mk_tuple r true VLong c) full_rows) in
+      if iz pg.pg_upper <> 48 then failwith "C08 gen: full page is not full";
+      if front then BPage pg :: blocks else blocks @ [ BPage pg ] in
   let tl = if rint r 4 = 0 then rbytes r (1 + rint r 300) else [] in
-  (enc_file blocks tl, List.map snd (List.filter fst all))
+  let vis = List.map snd (List.filter fst all) in
+  let vis_rows = if front then full_rows @ vis else vis @ full_rows in
+  (enc_file blocks tl, vis_rows)
 
 let c_stats_spec (rel : z) (cs : chunk list) : string =
   match cs with [] -> "nil" | _ ->
